@@ -32,8 +32,8 @@ theorem C17_traverse_eq_spec : ∀ root : Node, WellFormed root →
       simpa [WellFormed, wellFormedB] using h
     exact build_flatten i cs h'.1 h'.2
 
-def exInfo (n : String) (r : Option Rep) : Info := ⟨n, r, some 1, 0, none⟩
-def exGroup (n : String) (r : Option Rep) : Info := ⟨n, r, none, 0, none⟩
+def exInfo (n : String) (r : Option Rep) : Info := ⟨n, r, some 1, 0, none, none⟩
+def exGroup (n : String) (r : Option Rep) : Info := ⟨n, r, none, 0, none, none⟩
 /-- the example of the comment in file_reader.c -/
 def exTree : Node :=
   .group (exGroup "schema" none) [
